@@ -80,6 +80,7 @@ Driver::DriverImpl::DriverImpl()
   , pipeFrom(pipeToAddr->Family(), SOCK_DGRAM, IPPROTO_UDP)
   , pipeTo(pipeToAddr->Family(), SOCK_DGRAM, IPPROTO_UDP)
   , pfds(1U, pollfd{pipeTo.fd, POLLIN, 0})
+  , shouldStop(false)
 {
   // bind to system-assigned port number and update address accordingly
   pipeTo.Bind(pipeToAddr->ForUdp());
@@ -167,8 +168,9 @@ void Driver::DriverImpl::StepSockets(Duration timeout)
 
 void Driver::DriverImpl::Run()
 {
-  shouldStop = false;
-  while(!shouldStop) {
+  // consume the stop request when leaving rather than discarding it on entry
+  // as it may have been issued before Run() was entered
+  while(!shouldStop.exchange(false)) {
     Step(noTimeout);
   }
 }
